@@ -127,7 +127,7 @@ def route(p0: int, p1: int, p2: int, idx: int, v0: int, d0: int, d1: int) -> boo
     if path_b.startswith(b'//'):
         return skip()
     body = B(d0, d1)[:blen]
-    req = method + b' ' + path_b + b' HTTP/1.1\r\nHost: front.example\r\nX-K: ' + B(v0) + b'\r\n'
+    req = method + b' ' + path_b + b' HTTP/1.1\r\n' + CFG.get('hostspell', 'Host').encode() + b': front.example\r\nX-K: ' + B(v0) + b'\r\n'
     if CFG.get('upgrade'):
         # a websocket handshake addressed to a reverse-proxy route is a request like any other: it is forwarded
         req = req + b'Connection: Upgrade\r\nUpgrade: websocket\r\nSec-WebSocket-Key: dGhlIHNhbXBsZSBub25jZQ==\r\nSec-WebSocket-Version: 13\r\n'
@@ -207,6 +207,32 @@ def route(p0: int, p1: int, p2: int, idx: int, v0: int, d0: int, d1: int) -> boo
         run(h.handle_events([], [cs.fd]))
         before = len(envkit.pending(h.plugin.route.upstream)) + len(us.out)
         nconn = len(env.connects)
+        if follow == 'again':
+            # a follow-up request to the SAME route, arriving in two reads cut at a fixed position: it is forwarded once, whole
+            req2 = b'POST ' + path_b + b' HTTP/1.1\r\nHost: front.example\r\nContent-Length: 1\r\n\r\n' + B(d0)
+            cut = CFG['fcut']
+            for sg in ([req2[:cut], req2[cut:]] if cut else [req2]):
+                cs.inq.append(sg)
+                try:
+                    td = run(h.handle_events([cs.fd], []))
+                except Exception as e:
+                    return fail('exception on a follow-up request split over two reads', exc=repr(e), cut=cut)
+                if td or h.must_flush_before_shutdown:
+                    return fail('follow-up request split over two reads was rejected', cut=cut, out=repr(cat(h.work.buffer)[len(reply):][:60]))
+            up = h.plugin.route.upstream
+            if len(env.connects) == nconn:
+                new = (us.out + envkit.pending(up))[before:]
+            elif len(env.connects) == nconn + 1 and env.connects[nconn][0] == (host, port):
+                new = envkit.pending(up)
+            else:
+                return fail('follow-up request to the same route connected elsewhere', connects=repr([a for a, s_ in env.connects]))
+            try:
+                m2 = refhttp.read_message(new, False)
+            except refhttp.Malformed as e:
+                return fail('follow-up request split over two reads did not reach the upstream intact', why=str(e), sent=repr(new[:80]), cut=cut)
+            if m2['start'][0] != b'POST' or m2['start'][1] != want_path or m2['body'] != B(d0) or m2['remainder'] != b'':
+                return fail('follow-up request split over two reads was altered', sent=repr(new[:80]), cut=cut)
+            return ok()
         p2 = b'/dyn/lit' if follow == 'lit' else (b'/p2' if follow == 'otherport' else b'/nothing-here')
         cs.inq.append(b'GET ' + p2 + b' HTTP/1.1\r\nHost: front.example\r\n\r\n')
         try:
@@ -322,6 +348,19 @@ def obligations(tier):
                         'cfg': {'rewrite': False, 'prefix': prefix, 'nsym': 0, 'method': 0, 'blen': 0, 'follow': follow}, 'timeout': T})
     obs.append({'name': 'route.follow_otherport.after_p1', 'fn': 'route',
                 'cfg': {'rewrite': False, 'prefix': '/p1', 'nsym': 0, 'method': 0, 'blen': 0, 'follow': 'otherport'}, 'timeout': T})
+    for prefix in ('/get', '/multi'):
+        for fcut in (0, 1, 7, 30, -3, -1):
+            if tier == 'quick' and prefix == '/multi' and fcut in (1, 30):
+                continue
+            obs.append({'name': 'route.follow_again.after%s.cut%d' % (prefix.replace('/', '_'), fcut), 'fn': 'route',
+                        'cfg': {'rewrite': False, 'prefix': prefix, 'nsym': 0, 'method': 0, 'blen': 0, 'follow': 'again', 'fcut': fcut},
+                        'timeout': T})
+    for spell in ('host', 'HOST', 'hOsT'):
+        for prefix in ('/get', '/tls'):
+            obs.append({'name': 'route.rewrite.%s.spelled_%s' % (prefix.replace('/', '_'), spell), 'fn': 'route',
+                        'cfg': {'rewrite': True, 'prefix': prefix, 'nsym': 0, 'method': 0, 'blen': 0, 'hostspell': spell}, 'timeout': T})
+        obs.append({'name': 'route.keep._get.spelled_%s' % spell, 'fn': 'route',
+                    'cfg': {'rewrite': False, 'prefix': '/get', 'nsym': 0, 'method': 0, 'blen': 0, 'hostspell': spell}, 'timeout': T})
     for prefix in ('/get', '/multi', '/p1'):
         obs.append({'name': 'route.upgrade.%s' % prefix.replace('/', '_'), 'fn': 'route',
                     'cfg': {'rewrite': False, 'prefix': prefix, 'nsym': 0, 'method': 0, 'blen': 0, 'upgrade': True}, 'timeout': T})
@@ -344,7 +383,7 @@ META = {
                  'overlapping shadowed route, https with port, dynamic returning a Url, dynamic returning a literal response); upstream choice '
                  'index symbolic; request path = 14 concrete prefixes + 0..2 symbolic visible characters (so it matches none/one/several routes); '
                  'methods GET/POST/PUT/DELETE; one header with a symbolic value byte; body 0..2 symbolic bytes; --rewrite-host-header on/off; '
-                 'the upstream reply (2 symbolic bytes) relayed back; a follow-up request on the same connection that matches no route / a literal route / a route to the same host on another port; a websocket handshake addressed to a route; sequences of 2-3 requests on new '
+                 'the upstream reply (2 symbolic bytes) relayed back; a follow-up request on the same connection that matches no route / a literal route / a route to the same host on another port / the same route again with the request cut over two reads at 5 positions; the Host header spelled host/HOST/hOsT with and without --rewrite-host-header; a websocket handshake addressed to a route; sequences of 2-3 requests on new '
                  'connections of the same process mixing a dynamic route that adjusts its parsed upstream URL with a static route naming the same URL',
         'thorough': 'up to 3 symbolic path characters on more prefixes',
     },
